@@ -11,6 +11,20 @@ RESOLVER = ("127.0.0.1", BIND_PORT)
 QT = [D.T_A, D.T_TXT, D.T_MX, D.T_NS, D.T_CNAME, 28]
 
 
+def long_name(rng, total):
+    """labels of a name with `total` characters in dotted form (labels of 1..63), not under the tunnel domain"""
+    labels = []
+    left = total - 4            # ".org"
+    while left > 0:
+        ln = min(left, rng.choice([63, 63, 40, 11, 1]))
+        if left - ln == 1:
+            ln = ln - 1 if ln > 1 else ln + 1
+        ln = min(ln, left)
+        labels.append(bytes(rng.choice(b"abcdefghijklmnopqrstuvwxyz0123456789-") for _ in range(ln)))
+        left -= ln + 1
+    return labels + [b"org"]
+
+
 def execute(spec):
     import runs
     rng = random.Random(spec["seed"])
@@ -35,6 +49,11 @@ def execute(spec):
             if m["a"] == "F":
                 n += 1
                 labels = [b"host%d" % (n % 7), rng.choice([b"other", b"example"]), b"org"]
+                shape = (n + spec["seed"]) % 4
+                if shape == 1:          # names of every length up to the longest a DNS name can be (253 characters)
+                    labels = long_name(rng, rng.choice([253, 252, 251, 250, 247, 244, 243, 242, 240, 230, 200, 128, 64]))
+                elif shape == 2:
+                    labels = long_name(rng, rng.randrange(6, 254))
                 qt = QT[n % len(QT)]
                 q = D.build_query(m["id"], labels, qt, edns=bool(n % 2))
                 w.send(script.src_addr(m["src"]), (W.SERVER_IP, 53), q, "requester")
